@@ -559,7 +559,7 @@ def _misses(P, Q):
     return Or(cross * cross >= dxx * dxx + dyy * dyy, px * dxx + py * dyy >= 0, qx * dxx + qy * dyy <= 0)
 
 
-def h_triangle(case, order, m):
+def h_triangle(case, order, sub, m):
     """overlap_area_triangle_unit_circle on a triangle in general position (no vertex within 1e-9 of the circle), by configuration.
     The two intersection routines are replaced by their specifications (circle_segment_single2: proved in triangle/crossing-point/*;
     circle_segment: see META assumptions), the segment area is uninterpreted, nested calls are treated inductively."""
@@ -583,6 +583,16 @@ def h_triangle(case, order, m):
     elif kind == 'none-inside/miss':
         m.assume(And(*out))
         m.assume(And(_misses(V1, V2), _misses(V2, V3), _misses(V3, V1)))
+        for k_, sg in enumerate(sub):
+            m.assume(Pn[k_][1] > 0 if sg == '+' else Pn[k_][1] < 0)         # which sides straddle the horizontal ray from the centre
+    elif kind.startswith('none-inside/chord-'):
+        m.assume(And(*out))
+        sides = {'12': (V1, V2), '23': (V2, V3), '31': (V3, V1)}
+        for nm_ in ('12', '23', '31'):                       # the routine looks at the sides in this order
+            if nm_ == kind[-2:]:
+                m.assume(Not(_misses(*sides[nm_])))
+                break
+            m.assume(_misses(*sides[nm_]))
     if not m.sym:
         I = interp(m, 'core', {})
         v = float(I.call('overlap_area_triangle_unit_circle', [float(x) for x in X]))
@@ -609,26 +619,61 @@ def h_triangle(case, order, m):
         return _pt(I, m, *P)
 
     def h_chord(I, args, guard):
-        # specification (assumed, see META): for P, Q strictly outside, either the segment misses the open disc and both results have
-        # x > 1, or it crosses the circle at P + t1 (Q - P) and P + t2 (Q - P), 0 < t1 < t2 < 1, returned in either order with x <= 1
+        # specification of circle_segment (assumed, see META): for P, Q strictly outside, either the segment misses the open disc and
+        # both results have x > 1, or it crosses the circle at P + t1 (Q - P), P + t2 (Q - P), 0 < t1 < t2 < 1, returned in either
+        # order.  The harness case fixes which (kind) and the order (sub = 'swap' / ''); that the call matches the case is an obligation.
         from vf.pyxsym import Struct
         a_ = [V(t, m) for t in args]
         P_, Q_ = (a_[0], a_[1]), (a_[2], a_[3])
-        t1, t2 = fresh('t_chord'), fresh('t_chord')
-        sw = symx.SymBool(z3.Bool(symx.ctx().name('swap')))
-        miss = _misses(P_, Q_)
-        both_out = And(_beyond(*P_), _beyond(*Q_))
-        R1 = (P_[0] + t1 * (Q_[0] - P_[0]), P_[1] + t1 * (Q_[1] - P_[1]))
-        R2 = (P_[0] + t2 * (Q_[0] - P_[0]), P_[1] + t2 * (Q_[1] - P_[1]))
-        far = fresh('far')
-        symx.ctx().assume(T_bool(far > 1))
-        symx.ctx().assume(T_bool(Implies(And(both_out, Not(miss)),
-                                         And(t1 > 0, t1 < t2, t2 < 1, chk.Eq(R1[0] * R1[0] + R1[1] * R1[1], 1), chk.Eq(R2[0] * R2[0] + R2[1] * R2[1], 1)))))
-        hit = And(both_out, Not(miss))
-        o1 = (If(hit, If(sw, R2[0], R1[0]), far), If(hit, If(sw, R2[1], R1[1]), far))
-        o2 = (If(hit, If(sw, R1[0], R2[0]), far), If(hit, If(sw, R1[1], R2[1]), far))
-        chords.append((guard, P_, Q_, R1, R2))
+        gg = symx.SymBool(guard) if not isinstance(guard, bool) else guard
+        m.require('circle_segment is called on two vertices outside the disc', Implies(gg, And(_beyond(*P_), _beyond(*Q_))))
         st = Struct('intersections', I.structs['intersections'], I.structs)
+        two = 0 * P_[0] + 2
+        side_name = None
+        if kind.startswith('none-inside/chord-'):
+            for nm_, (a1, b1) in (('12', (V1, V2)), ('23', (V2, V3)), ('31', (V3, V1))):
+                if all(_same(m, p_, q_) for p_, q_ in zip(P_ + Q_, a1 + b1)):
+                    side_name = nm_
+            m.require('circle_segment is called on a side of the triangle', side_name is not None)
+        hit_here = (kind == 'one-inside/chord') or (side_name is not None and side_name == kind[-2:])
+        later = side_name is not None and ('12', '23', '31').index(side_name) > ('12', '23', '31').index(kind[-2:])
+        if hit_here:
+            if kind == 'one-inside/chord':
+                m.require('circle_segment is called on the far side', all(_same(m, p_, q_) for p_, q_ in zip(P_ + Q_, V2 + V3)))
+            t1, t2 = fresh('t_chord'), fresh('t_chord')
+            R1 = (P_[0] + t1 * (Q_[0] - P_[0]), P_[1] + t1 * (Q_[1] - P_[1]))
+            R2 = (P_[0] + t2 * (Q_[0] - P_[0]), P_[1] + t2 * (Q_[1] - P_[1]))
+            symx.ctx().assume(T_bool(And(t1 > 0, t1 < t2, t2 < 1, chk.Eq(R1[0] * R1[0] + R1[1] * R1[1], 1), chk.Eq(R2[0] * R2[0] + R2[1] * R2[1], 1))))
+            dist2 = lambda P2: (P2[0] - P_[0]) ** 2 + (P2[1] - P_[1]) ** 2
+            D2 = m.define('D2', (Q_[0] - P_[0]) * (Q_[0] - P_[0]) + (Q_[1] - P_[1]) * (Q_[1] - P_[1]))
+            m.lemma('the far side has positive length', D2 > 0, use=['def D2'])
+            m.lemma('distance of the first crossing from V2', chk.Eq(dist2(R1), t1 * t1 * D2), use=['def D2'])
+            m.lemma('distance of the second crossing from V2', chk.Eq(dist2(R2), t2 * t2 * D2), use=['def D2'])
+            m.lemma('squares of the parameters are ordered', t1 * t1 < t2 * t2, use=[])
+            m.lemma('the first crossing is nearer to V2', dist2(R1) < dist2(R2),
+                    use=['distance of the first', 'distance of the second', 'squares of the parameters', 'the far side has positive'])
+            r1x, r1y, r2x, r2y = m.define('r1x', R1[0]), m.define('r1y', R1[1]), m.define('r2x', R2[0]), m.define('r2y', R2[1])
+            m.lemma('the crossings are on the unit circle (named coordinates)', And(chk.Eq(r1x * r1x + r1y * r1y, 1), chk.Eq(r2x * r2x + r2y * r2y, 1)),
+                    use=['def r1x', 'def r1y', 'def r2x', 'def r2y'])
+            m.lemma('named coordinates: both crossings have x <= 1', And(r1x <= 1, r2x <= 1), use=['the crossings are on the unit circle'])
+            m.lemma('both crossings have x <= 1', And(R1[0] <= 1, R2[0] <= 1), use=['named coordinates: both', 'def r1x', 'def r2x'])
+            gap = m.define('gap', (r1x - r2x) * (r1x - r2x) + (r1y - r2y) * (r1y - r2y))
+            m.lemma('squared distance between the crossings', chk.Eq(gap, (t2 - t1) * (t2 - t1) * D2), use=['def gap', 'def r1x', 'def r1y', 'def r2x', 'def r2y', 'def D2'])
+            m.lemma('the crossings are distinct', gap > 0, use=['squared distance between', 'the far side has positive'])
+            m.lemma('inner product of the crossings', chk.Eq(2 * (r1x * r2x + r1y * r2y), 2 - gap), use=['def gap', 'the crossings are on the unit circle'])
+            m.lemma('the chord end points differ: their inner product is below 1', r1x * r2x + r1y * r2y < 1, use=['inner product of the crossings', 'the crossings are distinct'])
+            m.lemma('the midpoint of the chord is strictly inside the disc',
+                    ((r1x + r2x) / 2) * ((r1x + r2x) / 2) + ((r1y + r2y) / 2) * ((r1y + r2y) / 2) < 1,
+                    use=['the chord end points differ', 'the crossings are on the unit circle'])
+            o1, o2 = (R2, R1) if sub == 'swap' else (R1, R2)
+            chords.append((guard, P_, Q_, R1, R2, t1, t2))
+        elif later:
+            # a side the routine evaluates but does not look at in this configuration: any result allowed by the specification
+            f1, f2 = fresh_pt(I, 'anyA'), fresh_pt(I, 'anyB')
+            o1, o2 = f1, f2
+        else:
+            m.require('circle_segment is only called on sides that miss the disc in this configuration', Implies(gg, _misses(P_, Q_)))
+            o1 = o2 = (two, two)
         st._f['p1'] = _pt(I, m, *o1)
         st._f['p2'] = _pt(I, m, *o2)
         return st
@@ -637,11 +682,33 @@ def h_triangle(case, order, m):
         a_ = [V(t, m) for t in args]
         return T(seg(m, a_[0], a_[1], a_[2], a_[3], 1))
 
+    tris = []
+
+    def h_tri(I, args, guard):
+        val = SymReal(Rnum(I.run(I.funcs['area_triangle'], args, guard)))
+        k = len(tris)
+        a_ = [V(t, m) for t in args]
+        pts = [(a_[0], a_[1]), (a_[2], a_[3]), (a_[4], a_[5])]
+        atom = m.define(f'tri {k}', val)
+        m.lemma(f'area_triangle call {k} = |shoelace|', chk.Eq(atom, chk.Abs(shoelace(pts))), use=[f'def tri {k}'])
+        tris.append((pts, atom, k))
+        return atom.t
+
+    def named_area(name, pts):
+        """a named signed area S together with the fact that the routine's triangle on the same three points is |S|"""
+        S = m.define(name, shoelace(pts))
+        first = None
+        for (q, atom, k) in tris:
+            if any(all(_same(m, a_[0], b_[0]) and _same(m, a_[1], b_[1]) for a_, b_ in zip(q, [pts[i] for i in pi])) for pi in itertools.permutations(range(3))):
+                m.lemma(f'|{name}| is triangle call {k}', chk.Eq(atom, chk.Abs(S)), use=[f'area_triangle call {k}', f'def {name}'])
+                first = atom if first is None else first
+        return S, first
+
     def h_nested(I, args, guard):
         c = SymReal(z3.Real(symx.ctx().name('nested')))
         nested.append((guard, [V(t, m) for t in args], c))
         return c.t
-    I = interp(m, 'core', {'circle_segment_single2': h_single, 'circle_segment': h_chord, 'area_arc_unit': h_arc,
+    I = interp(m, 'core', {'circle_segment_single2': h_single, 'circle_segment': h_chord, 'area_arc_unit': h_arc, 'area_triangle': h_tri,
                            'overlap_area_triangle_unit_circle': h_nested}, prune=True)
     v = V(I.run(I.funcs['overlap_area_triangle_unit_circle'], [T(x) for x in X], z3.BoolVal(True)), m)
     finish(m, I)
@@ -661,13 +728,20 @@ def h_triangle(case, order, m):
         sA = [c_[4] for c_ in singles if c_[3] is PA][0]
         sB = [c_[4] for c_ in singles if c_[3] is PB][0]
         O2 = m.define('twice the signed area of the triangle', 2 * shoelace([V1, V2, V3]))
-        m.lemma('orientation of V1 V2 PA', chk.Eq(2 * shoelace([V1, V2, PA]), sA * O2), use=['def twice'])
-        m.lemma('orientation of V2 PB PA', chk.Eq(2 * shoelace([V2, PB, PA]), sB * (1 - sA) * O2), use=['def twice'])
-        m.lemma('the quadrilateral V1 V2 PB PA is cut into V1 V2 PA and V2 PB PA with the same orientation',
-                shoelace([V1, V2, PA]) * shoelace([V2, PB, PA]) >= 0, use=['orientation of V1 V2 PA', 'orientation of V2 PB PA'])
-        m.lemma('quadrilateral = sum of the two triangles', chk.Eq(shoelace([V1, V2, PB, PA]), shoelace([V1, V2, PA]) + shoelace([V2, PB, PA])), use=[])
-        ref = chk.Abs(shoelace([V1, V2, PB, PA])) + seg1(m, PA, PB)
-        m.require('two vertices inside: overlap = quadrilateral (two vertices, two crossings) + circular segment on the crossings', chk.Eq(v, ref))
+        S1, T1 = named_area('S1', [V1, V2, PA])
+        S2, T2 = named_area('S2', [V2, PB, PA])
+        m.require('two vertices inside: the routine evaluates the triangles V1 V2 PA and V2 PA PB', T1 is not None and T2 is not None and len(tris) == 2)
+        if T1 is None or T2 is None:
+            return
+        Q = m.define('Q', shoelace([V1, V2, PB, PA]))
+        m.lemma('orientation of V1 V2 PA', chk.Eq(2 * S1, sA * O2), use=['def twice', 'def S1'])
+        m.lemma('orientation of V2 PB PA', chk.Eq(2 * S2, sB * (1 - sA) * O2), use=['def twice', 'def S2'])
+        m.lemma('the two triangles have the same orientation', S1 * S2 >= 0, use=['orientation of V1 V2 PA', 'orientation of V2 PB PA'])
+        m.lemma('quadrilateral = sum of the two triangles', chk.Eq(Q, S1 + S2), use=['def Q', 'def S1', 'def S2'])
+        m.lemma('areas add', chk.Eq(chk.Abs(Q), T1 + T2), use=['the two triangles have the same', 'quadrilateral = sum', '|S1| is', '|S2| is'])
+        ref = chk.Abs(Q) + seg1(m, PA, PB)
+        m.require('two vertices inside: overlap = quadrilateral (two vertices, two crossings) + circular segment on the crossings', chk.Eq(v, ref),
+                  use=['areas add'])
     elif kind.startswith('one-inside'):
         P3, P4 = single_for(V1, V2), single_for(V1, V3)
         m.require('one vertex inside: the crossing points of its two sides are computed', P3 is not None and P4 is not None)
@@ -675,12 +749,18 @@ def h_triangle(case, order, m):
             return
         if kind.endswith('miss'):
             # beyond the chord P3 P4 lies a circular segment: the minor one iff the centre is on the same side of the chord as V1
-            sideO = shoelace([P3, P4, (0 * X[0], 0 * X[0])])
-            sideV = shoelace([P3, P4, V1])
-            minor = sideO * sideV > 0
-            ref = tri(V1, P3, P4) + If(minor, seg1(m, P3, P4), symx.SymReal(symx.PI) - seg1(m, P3, P4))
+            o = (0 * X[0], 0 * X[0])
+            sideO = 2 * shoelace([P3, P4, o])
+            sideV = 2 * shoelace([P3, P4, V1])
+            m.assume(sideO > 0 if sub[0] == '+' else sideO < 0)        # `sub` enumerates the four sign patterns (ties have measure zero)
+            m.assume(sideV > 0 if sub[1] == '+' else sideV < 0)
+            S, Tk = named_area('S', [V1, P3, P4])
+            m.require('one vertex inside: the routine evaluates the triangle (vertex, two crossings)', Tk is not None)
+            if Tk is None:
+                return
+            part = seg1(m, P3, P4) if sub[0] == sub[1] else symx.SymReal(symx.PI) - seg1(m, P3, P4)
             m.require('one vertex inside, far side outside the disc: overlap = triangle (vertex, two crossings) + the circular segment beyond the chord '
-                      '(the major one when the centre lies beyond the chord)', chk.Eq(v, ref))
+                      '(the major one when the centre lies beyond the chord)', chk.Eq(v, chk.Abs(S) + part), use=['|S| is'])
         else:
             ch = [c_ for c_ in chords if all(_same(m, p_, q_) for p_, q_ in zip(c_[1] + c_[2], V2 + V3))]
             m.require('one vertex inside, far side crosses the disc: its two crossing points are computed', len(ch) == 1)
@@ -688,15 +768,72 @@ def h_triangle(case, order, m):
                 return
             R1, R2 = ch[0][3], ch[0][4]
             Qa, Qb = R1, R2          # ordered along V2 -> V3: R1 is the crossing nearer to V2
-            ref = tri(V1, P3, Qa) + tri(V1, Qa, Qb) + tri(V1, Qb, P4) + seg1(m, Qa, P3) + seg1(m, Qb, P4)
-            m.require('one vertex inside, far side crosses the disc: overlap = fan of three triangles from the vertex + two circular segments', chk.Eq(v, ref))
+            Sa, Ta = named_area('Sa', [V1, P3, Qa])
+            Sb, Tb = named_area('Sb', [V1, Qa, Qb])
+            Sc, Tc = named_area('Sc', [V1, Qb, P4])
+            m.require('one vertex inside, far side crosses the disc: the routine evaluates the fan V1 P3 Qa, V1 Qa Qb, V1 Qb P4',
+                      Ta is not None and Tb is not None and Tc is not None and len(tris) == 3)
+            if Ta is None or Tb is None or Tc is None:
+                return
+            ref = chk.Abs(Sa) + chk.Abs(Sb) + chk.Abs(Sc) + seg1(m, Qa, P3) + seg1(m, Qb, P4)
+            m.require('one vertex inside, far side crosses the disc: overlap = fan of three triangles from the vertex + two circular segments', chk.Eq(v, ref),
+                      use=['|Sa| is', '|Sb| is', '|Sc| is'])
     elif kind == 'none-inside/miss':
-        o = (0 * X[0], 0 * X[0])
-        s1, s2, s3 = shoelace([V1, V2, o]), shoelace([V2, V3, o]), shoelace([V3, V1, o])
-        inside_tri = Or(And(s1 > 0, s2 > 0, s3 > 0), And(s1 < 0, s2 < 0, s3 < 0))
-        on_edge_line = Or(chk.Eq(s1, 0), chk.Eq(s2, 0), chk.Eq(s3, 0))
+        import ast as _ast
+        # the routine decides "centre in triangle" by the parity of the sides that cross the ray y = 0, x > 0; the reference is the
+        # orientation test.  Each crossing comparison of the routine (taken from its own source) is related to a 2x2 determinant.
+        Vs = [V1, V2, V3]
+        ysign = {id(Pn[k_]): sg for k_, sg in enumerate(sub)}
+        sg = [ysign[id(Vs[k_])] for k_ in range(3)]
+        det = {}
+        for (a_, b_) in ((0, 1), (1, 2), (2, 0)):
+            det[(a_, b_)] = m.define(f'det{a_ + 1}{b_ + 1}', Vs[a_][0] * Vs[b_][1] - Vs[b_][0] * Vs[a_][1])
+        fn = I.funcs['in_triangle']
+        cmps = [st.value.values[1] for st in fn.body if isinstance(st, _ast.AugAssign)]
+        m.require('in_triangle has one crossing test per side', len(cmps) == 3)
+        if len(cmps) != 3:
+            return
+        zero = z3.RealVal(0)
+        env = {'x': zero, 'y': zero, 'x1': T(V1[0]), 'y1': T(V1[1]), 'x2': T(V2[0]), 'y2': T(V2[1]), 'x3': T(V3[0]), 'y3': T(V3[1])}
+        for k_, (a_, b_) in enumerate(((0, 1), (1, 2), (2, 0))):
+            if sg[a_] == sg[b_]:
+                continue                                   # this side does not straddle the ray's line: it is not counted
+            kc = symx.SymBool(I.ev(cmps[k_], env, z3.BoolVal(True)))
+            want = det[(a_, b_)] < 0 if sg[a_] == '+' else det[(a_, b_)] > 0
+            m.lemma(f'side {a_ + 1}{b_ + 1}: the crossing lies to the right of the centre iff the determinant has the sign that goes with the direction of the side',
+                    Iff(kc, want), use=[f'def det{a_ + 1}{b_ + 1}'])
+        m.lemma('the three determinants are linearly dependent (y3 det12 + y1 det23 + y2 det31 = 0)',
+                chk.Eq(V3[1] * det[(0, 1)] + V1[1] * det[(1, 2)] + V2[1] * det[(2, 0)], 0), use=['def det'])
+        d12, d23, d31 = det[(0, 1)], det[(1, 2)], det[(2, 0)]
+        inside_tri = Or(And(d12 > 0, d23 > 0, d31 > 0), And(d12 < 0, d23 < 0, d31 < 0))
+        on_edge_line = Or(chk.Eq(d12, 0), chk.Eq(d23, 0), chk.Eq(d31, 0))
         m.require('no vertex inside, no side meets the disc: the overlap is the whole disc (pi) if the centre is in the triangle, else 0',
-                  Or(on_edge_line, chk.Eq(v, If(inside_tri, symx.SymReal(symx.PI), 0 * X[0]))))
+                  Or(on_edge_line, chk.Eq(v, If(inside_tri, symx.SymReal(symx.PI), 0 * X[0]))), use=['side ', 'the three determinants'])
+
+
+    elif kind.startswith('none-inside/chord-'):
+        (A_, B_), C_ = {'12': ((V1, V2), V3), '23': ((V2, V3), V1), '31': ((V3, V1), V2)}[kind[-2:]]
+        m.require('a crossing side: its two crossing points are computed', len(chords) == 1)
+        if len(chords) != 1:
+            return
+        _, P_, Q_, R1, R2, t1, t2 = chords[0]
+        Mid = ((R1[0] + R2[0]) / 2, (R1[1] + R2[1]) / 2)
+        m.require('no vertex inside, one side crosses the disc: the triangle is split into two sub-triangles (nested evaluations)', len(nested) == 2)
+        if len(nested) != 2:
+            return
+        subt = [[(a_[0], a_[1]), (a_[2], a_[3]), (a_[4], a_[5])] for (_, a_, _) in nested]
+
+        def same_tri(t_, ref_):
+            return Or(*[And(*[And(chk.Eq(t_[k_][0], ref_[pi[k_]][0]), chk.Eq(t_[k_][1], ref_[pi[k_]][1])) for k_ in range(3)])
+                        for pi in itertools.permutations(range(3))])
+        r1, r2 = (A_, C_, Mid), (B_, C_, Mid)
+        m.require('the two sub-triangles are (A, C, M) and (B, C, M) with M the midpoint of the chord cut from side AB: they tile the triangle',
+                  Or(And(same_tri(subt[0], r1), same_tri(subt[1], r2)), And(same_tri(subt[0], r2), same_tri(subt[1], r1))))
+        tm = (t1 + t2) / 2
+        m.require('M lies on side AB strictly between its end points', And(tm > 0, tm < 1, chk.Eq(Mid[0], P_[0] + tm * (Q_[0] - P_[0])), chk.Eq(Mid[1], P_[1] + tm * (Q_[1] - P_[1]))))
+        m.require('M is strictly inside the disc (so the nested evaluations do not recurse again)', Mid[0] * Mid[0] + Mid[1] * Mid[1] < 1,
+                  use=['the midpoint of the chord is strictly inside', 'def r1x', 'def r1y', 'def r2x', 'def r2y'])
+        m.require('overlap = sum of the overlaps of the two sub-triangles', chk.Eq(v, nested[0][2] + nested[1][2]), use=[])
 
 
 def T_bool(b):
@@ -837,9 +974,13 @@ def harnesses(tier):
                 hs.append((f'triangle/crossing-point/slope-{sl}/towards{dr}/slope-sign{sg}', P(h_crossing, sl, dr, sg)))
     import itertools
     perms = list(itertools.permutations(range(3)))
-    for kind in ('all-inside', 'two-inside', 'one-inside/miss', 'one-inside/chord', 'none-inside/miss'):
+    for kind in ('all-inside', 'two-inside', 'one-inside/miss', 'one-inside/chord', 'none-inside/miss', 'none-inside/chord-12', 'none-inside/chord-23', 'none-inside/chord-31'):
         for od in (perms if tier != 'quick' else perms[::2] if kind != 'two-inside' else perms):
-            hs.append((f'triangle/{kind}/order-{"".join(str(k + 1) for k in od)}', P(h_triangle, kind, od)))
+            subs = {'one-inside/miss': ('++', '+-', '-+', '--'), 'one-inside/chord': ('', 'swap'),
+                    'none-inside/miss': ('+++', '++-', '+-+', '+--', '-++', '-+-', '--+', '---')}.get(kind, ('',))
+            for sb in subs:
+                tag = f'triangle/{kind}/order-{"".join(str(k + 1) for k in od)}' + (f'/{"signs" if sb != "swap" else ""}{sb}' if sb else '')
+                hs.append((tag, P(h_triangle, kind, od, sb)))
     hs.append(('segment-formula/radius-r', P(h_arc_formula, False)))
     hs.append(('segment-formula/unit', P(h_arc_formula, True)))
     hs.append(('plumbing/circle', P(h_plumbing, 'circle', None)))
@@ -849,8 +990,40 @@ def harnesses(tier):
 
 
 def cases(tier, seed):
-    cs = [(name, functools.partial(chk.run_case, 'C03', name, h, max_paths=300)) for name, h in harnesses(tier)]
+    cs = []
+    for name, h in harnesses(tier):
+        kw = {}
+        if name.startswith(('triangle/', 'circle/core', 'circle/quadrants')):
+            kw['preprobe'] = {'n': 400, 'span': 2.0, 'budget_s': 10.0}
+        cs.append((name, functools.partial(chk.run_case, 'C03', name, h, max_paths=300, **kw)))
     return cs
 
 
-META = {}
+META = {
+    'technique': 'pyx-level symbolic execution of the real kernels (E2) and of the real to_mask (E1) with uninterpreted area functions + SMT (z3 NRA/UF); '
+                 'lemma chains, each lemma proved before it is used; linear-abstraction branch pruning during interpretation',
+    'functions_encoded': ['regions.shapes.circle.CirclePixelRegion.to_mask / regions.shapes.ellipse.EllipsePixelRegion.to_mask (mode=exact)',
+                          'regions/_geometry/circular_overlap.pyx: circular_overlap_grid, circular_overlap_single_exact, circular_overlap_core',
+                          'regions/_geometry/elliptical_overlap.pyx: elliptical_overlap_grid, elliptical_overlap_single_exact',
+                          'regions/_geometry/core.pyx: area_arc, area_arc_unit, area_triangle, floor_sqrt, distance, circle_line, circle_segment_single2, '
+                          'in_triangle, overlap_area_triangle_unit_circle'],
+    'bounds': {'quick': {'grids': '1x1 and 2x2 pixels, every pixel, 9 sign positions of the pixel relative to the centre (ellipse: x 2 for which semi-axis is larger)',
+                         'geometry': 'all extents / radii / semi-axes / angles / triangle vertices are unbounded reals',
+                         'triangle configurations': 'all-inside, two-inside (6 vertex orders), one-inside with far side missing the disc (3 orders x 4 sign patterns) or '
+                                                    'crossing it (3 orders x 2 result orders), none-inside with no side meeting the disc (3 orders x 8 sign patterns), '
+                                                    'none-inside with side 12 / 23 / 31 crossing (3 orders each)',
+                         'plumbing': 'circle r <= 1.2, ellipse width / height <= 1.6 (box shapes up to 4x4), angle units default / deg / rad',
+                         'recursion': 'overlap_area_triangle_unit_circle: one level, nested calls treated inductively (their first vertex is proved strictly inside the disc)'},
+               'thorough': {'grids': '1x1, 2x1, 1x2, 2x2, 3x2, 3x3 (circle); 1x1, 2x1, 2x2, 3x3 (ellipse)', 'triangle configurations': 'all 6 vertex orders for every configuration'}},
+    'outside_claim': ['the identity "r^2 (theta - sin theta) / 2 is the area of the circular segment" (asin / sin are uninterpreted; the routine is only compared with that formula)',
+                      'floating-point error of the kernels (the 1e-8 of the statement), finiteness and [0, 1] as floating-point facts',
+                      'the convergence rate of sub-pixel masks (C02 proves what a sub-pixel mask is, not how fast it converges)',
+                      'vertices within 1e-9 (squared distance) of the circle and points closer than 1e-9: the tolerance branches (on1/on2/on3, coincident points) of the triangle routine',
+                      'area additivity under the split of a triangle and under the quadrant / two-triangle decompositions is geometry, used in the paper composition of the layers',
+                      'the specification of circle_segment (two crossings of a segment whose end points are outside) is assumed, not proved (circle_segment_single2 is proved)'],
+    'stubs': ['segment area, first-quadrant overlap, single-pixel overlap, triangle overlap: uninterpreted (symmetric where the geometry is) / fresh reals per evaluation',
+              'circle_segment_single2 and circle_segment replaced by their specifications inside the triangle routine; cos / sin of the ellipse angle: unit-circle atom',
+              'replay: numeric reference areas of vf/areas.py (chord-length integration, edge walk)'],
+    'assumptions': ['real-number semantics of the kernels', 'specification of circle_segment (see outside_claim)',
+                    'textbook circular-segment formula'],
+}
